@@ -43,6 +43,9 @@ def generate(run_seed: int, tier: str, *, faults: bool) -> dict:
     swarm = core.stream(run_seed, "swarm")
     rich = swarm.random() < 0.85
     u = world.gen_universe(rng, ticked_p=0.25 if swarm.random() < 0.5 else 0.05)
+    container = core.weighted(rng, [("pandas", 7), ("recarray", 1.2), ("pandas_sub", 1.2), ("arrow", 1.5)])
+    if container == "recarray":
+        u["cols"].pop("N", None)  # a record array has no categorical dtype: numeric categories would simply be a numeric column
     f = world.gen_formula(rng, u, rich=rich, structured_p=swarm.choice([0.0, 0.25, 0.5]), max_terms=swarm.choice([2, 3, 5]),
                           force_ticked=True)
     n = u["n"]
@@ -63,7 +66,6 @@ def generate(run_seed: int, tier: str, *, faults: bool) -> dict:
         kept = [i for i in train if not nullrow[i]]
         if len(kept) >= 4:
             train = kept
-    container = core.weighted(rng, [("pandas", 7), ("dict", 2), ("arrow", 1.5)])
     if container == "arrow":
         # third-party quirk, not formulaic's: numpy conversion of an arrow *dictionary* array maps a null entry to a
         # real category (np.array(narwhals_series) of [None] with categories [hi, lo] gives ['lo']), so hashed() would
